@@ -61,7 +61,7 @@ def gen_cases(ctx):
                 td = {} if u is None else {"unroll-variadic": u}
                 cases.append({"kind": "catalogue", "inpkg": inpkg, "genseed": ctx.seed * 31 + inpkg, "idx": ch, "template": "testify", "formatter": "goimports",
                               "placement": "inpkg-test" if inpkg else rng.choice(["outpkg", "xtest"]), "td": td, "gomod": "plain", "srckind": "ordinary",
-                              "drvseed": rng.randrange(1, 1 << 20), "td_level": ["root", "iface", "recparent"][ci % 3]})
+                              "drvseed": rng.randrange(1, 1 << 20), "td_level": ["root", "iface", "recparent"][ci % 3], "golang": [None, "1.21", None, "1.20", None, "1.18"][ci % 6]})
     # replace-type: the effective (replacement) type decides nillability, assertions and zero values of results
     for k in range(4 if ctx.tier == "quick" else 20):
         t1, t2 = REPLACE_TARGETS[k % len(REPLACE_TARGETS)], REPLACE_TARGETS[(k * 3 + 1) % len(REPLACE_TARGETS)]
